@@ -22,6 +22,8 @@ class SWWorld(object):
     self.ctl = None
     self.accepts = []
     self.bad_stream = False
+    self.on_switch = None       # harness hook: called with the new switch
+    self.talk_first = b""       # bytes the peer writes the moment it accepts
 
   def boot(self):
     import pox.core
@@ -50,6 +52,8 @@ class SWWorld(object):
               max_entries=cfg.get("max_entries", 0x7fffffff),
               expire_period=cfg.get("expire_period", 2))
     self.switch = ExpiringSwitch(**kw)
+    if self.on_switch is not None:
+      self.on_switch(self.switch)
     for no in cfg.get("ports_admin_down", ()):
       # a port that is administratively down from the start (its link state
       # says nothing of the kind)
@@ -73,6 +77,11 @@ class SWWorld(object):
     self.accepts.append(srv)
     self.ctl = srv
     self.rxbuf = b""
+    if self.talk_first:
+      # (the connecting side has not even noticed that it is connected)
+      first, self.talk_first = self.talk_first, b""
+      srv.send(first)
+      self.sim.probes["peer_talks_first"] += 1
 
   def _on_dp_out(self, event):
     try:
